@@ -245,39 +245,99 @@ func vAttrs(data any) pcommon.Map {
 	panic("vAttrs: unknown payload type")
 }
 
-func vGetTrail(data any) string {
+// payload shapes: 0 full (resource, scope, one record) | 1 childless (a resource without scopes) | 2 empty (no resource
+// entry at all).  Routing must not depend on the payload's content.
+func vShape(data any) int {
+	n, kids := 0, 0
+	switch d := data.(type) {
+	case ptrace.Traces:
+		if n = d.ResourceSpans().Len(); n > 0 {
+			kids = d.ResourceSpans().At(0).ScopeSpans().Len()
+		}
+	case pmetric.Metrics:
+		if n = d.ResourceMetrics().Len(); n > 0 {
+			kids = d.ResourceMetrics().At(0).ScopeMetrics().Len()
+		}
+	case plog.Logs:
+		if n = d.ResourceLogs().Len(); n > 0 {
+			kids = d.ResourceLogs().At(0).ScopeLogs().Len()
+		}
+	case pprofile.Profiles:
+		if n = d.ResourceProfiles().Len(); n > 0 {
+			kids = d.ResourceProfiles().At(0).ScopeProfiles().Len()
+		}
+	}
+	switch {
+	case n == 0:
+		return 2
+	case kids == 0:
+		return 1
+	}
+	return 0
+}
+
+// the trail travels twice: in the payload (resource attribute, when there is a resource) and in the context
+type vCtxTrail struct{}
+
+func vWithTrail(ctx context.Context, t string) context.Context { return context.WithValue(ctx, vCtxTrail{}, t) }
+
+// vGetTrail: the trail of an arriving payload; the payload's own copy (when it has one) must agree with the context's
+func (c *vComp) vGetTrail(ctx context.Context, data any) string {
+	ct, _ := ctx.Value(vCtxTrail{}).(string)
+	if vShape(data) == 2 {
+		return ct
+	}
 	v, ok := vAttrs(data).Get(vTrailKey)
 	if !ok {
 		return "?"
 	}
+	if v.Str() != ct {
+		c.anomalies = append(c.anomalies, fmt.Sprintf("payload trail %q but context trail %q", v.Str(), ct))
+	}
 	return v.Str()
 }
 
-func vNewData(sig int, trail string) any {
+func vNewData(sig int, trail string, shape int) any {
 	switch sig {
 	case 0:
 		d := ptrace.NewTraces()
-		rs := d.ResourceSpans().AppendEmpty()
-		rs.Resource().Attributes().PutStr(vTrailKey, trail)
-		rs.ScopeSpans().AppendEmpty().Spans().AppendEmpty().SetName("s")
+		if shape < 2 {
+			rs := d.ResourceSpans().AppendEmpty()
+			rs.Resource().Attributes().PutStr(vTrailKey, trail)
+			if shape == 0 {
+				rs.ScopeSpans().AppendEmpty().Spans().AppendEmpty().SetName("s")
+			}
+		}
 		return d
 	case 1:
 		d := pmetric.NewMetrics()
-		rm := d.ResourceMetrics().AppendEmpty()
-		rm.Resource().Attributes().PutStr(vTrailKey, trail)
-		rm.ScopeMetrics().AppendEmpty().Metrics().AppendEmpty().SetName("m")
+		if shape < 2 {
+			rm := d.ResourceMetrics().AppendEmpty()
+			rm.Resource().Attributes().PutStr(vTrailKey, trail)
+			if shape == 0 {
+				rm.ScopeMetrics().AppendEmpty().Metrics().AppendEmpty().SetName("m")
+			}
+		}
 		return d
 	case 2:
 		d := plog.NewLogs()
-		rl := d.ResourceLogs().AppendEmpty()
-		rl.Resource().Attributes().PutStr(vTrailKey, trail)
-		rl.ScopeLogs().AppendEmpty().LogRecords().AppendEmpty().Body().SetStr("l")
+		if shape < 2 {
+			rl := d.ResourceLogs().AppendEmpty()
+			rl.Resource().Attributes().PutStr(vTrailKey, trail)
+			if shape == 0 {
+				rl.ScopeLogs().AppendEmpty().LogRecords().AppendEmpty().Body().SetStr("l")
+			}
+		}
 		return d
 	default:
 		d := pprofile.NewProfiles()
-		rp := d.ResourceProfiles().AppendEmpty()
-		rp.Resource().Attributes().PutStr(vTrailKey, trail)
-		rp.ScopeProfiles().AppendEmpty().Profiles().AppendEmpty()
+		if shape < 2 {
+			rp := d.ResourceProfiles().AppendEmpty()
+			rp.Resource().Attributes().PutStr(vTrailKey, trail)
+			if shape == 0 {
+				rp.ScopeProfiles().AppendEmpty().Profiles().AppendEmpty()
+			}
+		}
 		return d
 	}
 }
@@ -331,19 +391,23 @@ func (c *vComp) handle(ctx context.Context, sig int, data any) error {
 	if c.refusing {
 		return errVRefused
 	}
+	shape := vShape(data)
 	switch c.kind {
 	case 2:
-		c.got = append(c.got, vGetTrail(data))
-		if c.id%3 == 2 {
+		c.got = append(c.got, c.vGetTrail(ctx, data))
+		if c.id%3 == 2 && shape < 2 {
 			vAttrs(data).PutStr("verif.exported", strconv.Itoa(c.serial)) // a mutating exporter
 		}
 		return nil
 	case 1:
-		a := vAttrs(data)
-		a.PutStr(vTrailKey, vGetTrail(data)+";"+strconv.Itoa(c.serial))
-		return vSend(ctx, c.next, data)
+		t := c.vGetTrail(ctx, data) + ";" + strconv.Itoa(c.serial)
+		if shape < 2 {
+			vAttrs(data).PutStr(vTrailKey, t)
+		}
+		return vSend(vWithTrail(ctx, t), c.next, data)
 	case 3:
-		t := vGetTrail(data) + ";" + strconv.Itoa(c.serial)
+		t := c.vGetTrail(ctx, data) + ";" + strconv.Itoa(c.serial)
+		ctx = vWithTrail(ctx, t)
 		if c.id%2 == 1 {
 			// odd connector ids route explicitly: one Consumer(pipelineID) per downstream pipeline
 			ids := append([]pipeline.ID(nil), c.routerIDs...)
@@ -355,7 +419,7 @@ func (c *vComp) handle(ctx context.Context, sig int, data any) error {
 					c.anomalies = append(c.anomalies, "router.Consumer("+id.String()+"): "+err.Error())
 					continue
 				}
-				nd := vNewData(c.sigOut, t)
+				nd := vNewData(c.sigOut, t, shape)
 				if c.id%4 == 3 {
 					vMarkRO(nd) // a connector may hand on a payload it still shares
 				}
@@ -366,10 +430,12 @@ func (c *vComp) handle(ctx context.Context, sig int, data any) error {
 			return firstErr
 		}
 		if c.sigIn == c.sigOut {
-			vAttrs(data).PutStr(vTrailKey, t)
+			if shape < 2 {
+				vAttrs(data).PutStr(vTrailKey, t)
+			}
 			return vSend(ctx, c.next, data)
 		}
-		nd := vNewData(c.sigOut, t)
+		nd := vNewData(c.sigOut, t, shape)
 		if c.id%4 == 2 {
 			vMarkRO(nd)
 		}
@@ -642,6 +708,7 @@ type vObs struct {
 	recvs      []vNodeKey
 	deliv      map[vNodeKey][]vDelivery
 	delivRO    map[vNodeKey][]vDelivery // the same injections with a payload marked read-only
+	delivE     map[vNodeKey][]vDelivery // injections of an EMPTY payload (no resource entries)
 	delivF     map[vNodeKey][]vDelivery // fault pass: some components refuse
 	errF       map[vNodeKey]bool        // fault pass: did the receiver get an error back
 	refusing   []vNodeKey
@@ -679,7 +746,7 @@ func vUnwrap(c component.Component) *vComp {
 }
 
 func vRun(cfg *vCfg) (obs *vObs) {
-	obs = &vObs{deliv: map[vNodeKey][]vDelivery{}, delivRO: map[vNodeKey][]vDelivery{}, delivF: map[vNodeKey][]vDelivery{}, errF: map[vNodeKey]bool{}, routers: map[vNodeKey][]string{}, routerPIDs: map[vNodeKey][][2]int{}}
+	obs = &vObs{deliv: map[vNodeKey][]vDelivery{}, delivRO: map[vNodeKey][]vDelivery{}, delivE: map[vNodeKey][]vDelivery{}, delivF: map[vNodeKey][]vDelivery{}, errF: map[vNodeKey]bool{}, routers: map[vNodeKey][]string{}, routerPIDs: map[vNodeKey][][2]int{}}
 	reg := &vReg{}
 	vCur = reg
 	vScheme = cfg.scheme
@@ -923,11 +990,18 @@ func vRun(cfg *vCfg) (obs *vObs) {
 	// inject one tagged payload at every receiver instance — once as a fresh mutable payload, once marked
 	// read-only (a receiver may share its payload with somebody else; mutating consumers must then get a clone)
 	// ... and a third time (fault pass) while some processors / exporters / connectors refuse the payload
-	for pass := 0; pass < 3; pass++ {
+	// ... and a fourth time with an EMPTY payload (no resource entries) while nothing refuses
+	for pass := 0; pass < 4; pass++ {
 		ro := pass == 1
 		target := obs.deliv
 		if ro {
 			target = obs.delivRO
+		}
+		if pass == 3 {
+			target = obs.delivE
+			for _, c := range reg.comps {
+				c.refusing = false
+			}
 		}
 		if pass == 2 {
 			target = obs.delivF
@@ -952,11 +1026,18 @@ func vRun(cfg *vCfg) (obs *vObs) {
 						obs.problems = append(obs.problems, [2]string{"panic-in-dataflow", fmt.Sprintf("payload read-only=%v injected at %s: %v", ro, keyOf[r.serial], x)})
 					}
 				}()
-				data := vNewData(r.sigIn, tag)
+				shape := 0
+				if ro {
+					shape = 1 // the shared payload is also a childless one (a resource without scopes)
+				}
+				if pass == 3 {
+					shape = 2 // no resource entry at all
+				}
+				data := vNewData(r.sigIn, tag, shape)
 				if ro {
 					vMarkRO(data)
 				}
-				err := vSend(context.Background(), r.next, data)
+				err := vSend(vWithTrail(context.Background(), tag), r.next, data)
 				if pass == 2 {
 					obs.errF[keyOf[r.serial]] = err != nil
 				} else if err != nil {
@@ -1018,7 +1099,7 @@ func vRun(cfg *vCfg) (obs *vObs) {
 							obs.problems = append(obs.problems, [2]string{"panic-in-dataflow", fmt.Sprintf("probe through router of %s: %v", ck, x)})
 						}
 					}()
-					if err := vSend(context.Background(), cons, vNewData(c.sigOut, "P")); err != nil {
+					if err := vSend(vWithTrail(context.Background(), "P"), cons, vNewData(c.sigOut, "P", len(obs.probes)%3)); err != nil {
 						obs.problems = append(obs.problems, [2]string{"consume-error", "probe: " + err.Error()})
 					}
 				}()
@@ -1592,7 +1673,7 @@ func vCompare(out *vOut, term string, cfg *vCfg, obs *vObs, ex *vExpect) {
 			out.Oracle("fault-error-propagation", term, fmt.Sprintf("receiver %s: a refusing component on a path: %v, error returned: %v", rk, want, got))
 		}
 	}
-	for pass, delivered := range []map[vNodeKey][]vDelivery{obs.deliv, obs.delivRO, obs.delivF} {
+	for pass, delivered := range []map[vNodeKey][]vDelivery{obs.deliv, obs.delivRO, obs.delivF, obs.delivE} {
 		kind := "routing"
 		if pass == 1 {
 			kind = "routing-readonly-payload"
@@ -1601,6 +1682,9 @@ func vCompare(out *vOut, term string, cfg *vCfg, obs *vObs, ex *vExpect) {
 		if pass == 2 {
 			kind = "routing-under-faults" // a refusing component must cut its own paths only
 			expected = ex.delivF
+		}
+		if pass == 3 {
+			kind = "routing-empty-payload" // routing must not depend on the payload's content
 		}
 		for rk, wantL := range expected {
 			gotL := []string{}
@@ -1653,6 +1737,14 @@ func vTerm(cfg *vCfg, obs *vObs) string {
 			continue
 		}
 		cs = append(cs, vPair(vNat(k), "Some "+vPair(vBool(!cfg.stable[k]), vList(pairs))))
+	}
+	var dse []string
+	for _, rk := range obs.recvs {
+		var ws []string
+		for _, d := range obs.delivE[rk] {
+			ws = append(ws, vPair(d.exp.term(), vKeys(d.trail)))
+		}
+		dse = append(dse, vPair(rk.term(), vList(ws)))
 	}
 	var ds, dsro, dsf, errs []string
 	rks := append([]vNodeKey(nil), obs.recvs...)
@@ -1718,7 +1810,7 @@ func vTerm(cfg *vCfg, obs *vObs) string {
 	}
 	cls := obs.class
 	return vPair(vPair(vList(ps), vPair(vList(cs), vList(np))),
-		vPair(vBool(obs.validateOK), vPair(vNat(cls), vPair(vKeys(obs.detail), vPair(vKeys(obs.created), vPair(vKeys(obs.started), vPair(vList(ds), vPair(vList(dsro), vPair(vList(rs), vPair(vKeys(obs.refusing), vPair(vList(dsf), vPair(vList(errs), vPair(vBool(obs.nilHostRejected), vList(prs))))))))))))))
+		vPair(vBool(obs.validateOK), vPair(vNat(cls), vPair(vKeys(obs.detail), vPair(vKeys(obs.created), vPair(vKeys(obs.started), vPair(vList(ds), vPair(vList(dsro), vPair(vList(rs), vPair(vKeys(obs.refusing), vPair(vList(dsf), vPair(vList(errs), vPair(vBool(obs.nilHostRejected), vPair(vList(prs), vList(dse)))))))))))))))
 }
 
 // ---- generator -----------------------------------------------------------------------------------------
